@@ -11,6 +11,29 @@ import traceback
 from .common import Check
 
 
+IA, DR, EM, TR, TK, SP = "droplets.image_analysis", "droplets.droplets", "droplets.emulsions", "droplets.droplet_tracks", "droplets.trackers", "droplets.tools.spherical"
+# the repository functions each hand-written model mirrors (fingerprints of their current source go into the evidence)
+MODELLED = {
+    "C01": [f"{IA}._locate_droplets_in_mask_cartesian", f"{IA}._locate_droplets_in_mask_spherical", f"{IA}._locate_droplets_in_mask_cylindrical", f"{IA}.locate_droplets", f"{EM}.Emulsion.get_phasefield", f"{SP}.polar_coordinates"],
+    "C02": [f"{IA}._locate_droplets_in_mask_cartesian", f"{IA}._locate_droplets_in_mask_cylindrical_single", f"{IA}._locate_droplets_in_mask_cylindrical", f"{EM}.Emulsion.remove_overlapping"],
+    "C03": [f"{SP}.polar_coordinates", f"{DR}.SphericalDroplet._get_phase_field", f"{DR}.DiffuseDroplet._get_phase_field", f"{DR}.PerturbedDropletBase._get_phase_field", f"{DR}.SphericalDroplet.get_phase_field", f"{EM}.Emulsion.get_phasefield"],
+    "C04": [f"{IA}.refine_droplet", f"{DR}.SphericalDroplet.data_bounds", f"{DR}.DiffuseDroplet.data_bounds", f"{DR}.PerturbedDropletBase.data_bounds"],
+    "C05": [f"{IA}.refine_droplet", f"{IA}.locate_droplets"],
+    "C06": [f"{TR}.DropletTrackList.from_emulsion_time_course", f"{TR}.DropletTrack.append"],
+    "C07": [f"{TR}.DropletTrackList.from_emulsion_time_course", f"{DR}.SphericalDroplet.overlaps"],
+    "C08": [f"{EM}.Emulsion._write_hdf_dataset", f"{EM}.Emulsion._from_hdf_dataset", f"{EM}.EmulsionTimeCourse.to_file", f"{EM}.EmulsionTimeCourse.from_file", f"{TR}.DropletTrack._write_hdf_dataset", f"{TR}.DropletTrack._from_hdf_dataset", f"{TR}.DropletTrackList.to_file", f"{TR}.DropletTrackList.from_file", f"{DR}.droplet_from_data"],
+    "C09": [f"{IA}.locate_droplets", f"{IA}.locate_droplets_in_mask", f"{IA}._locate_droplets_in_mask_cylindrical_single", f"{IA}._locate_droplets_in_mask_cylindrical"],
+    "C10": [f"{EM}.Emulsion.remove_overlapping", f"{EM}.Emulsion.get_pairwise_distances", f"{EM}.Emulsion.get_neighbor_distances", f"{DR}.SphericalDroplet.overlaps"],
+    "C14": [f"{TK}.DropletTracker.handle", f"{TK}.LengthScaleTracker.handle", f"{EM}.EmulsionTimeCourse.from_storage", f"{EM}.EmulsionTimeCourse.append"],
+    "C15": [f"{IA}.refine_droplets", f"{EM}.EmulsionTimeCourse.from_storage"],
+    "C16": [f"{IA}.get_structure_factor"],
+    "C17": [f"{IA}.get_length_scale"],
+    "C18": [f"{IA}.locate_droplets", f"{IA}.threshold_otsu"],
+    "C19": [f"{IA}.locate_droplets", f"{IA}.refine_droplet", f"{DR}.SphericalDroplet.from_droplet"],
+    "C20": [f"{EM}.Emulsion", f"{EM}.EmulsionTimeCourse", f"{TR}.DropletTrack"],
+}
+
+
 def main() -> int:
     ap = argparse.ArgumentParser()
     ap.add_argument("pid")
@@ -39,6 +62,7 @@ def main() -> int:
             print(f"VIOLATION property={a.pid} replay={a.replay}")
         return 0 if ok else 1
     ck = Check(a.pid, a.tier, seed, level=getattr(mod, "LEVEL", "proof"))
+    ck.modelled = MODELLED.get(a.pid, [])
     try:
         mod.run(ck)
     except Exception as e:  # noqa: BLE001
